@@ -197,7 +197,6 @@ policy_kind!(c16_q_kind_d_insert, 1, [Insert(0), Insert(1), Pin(1), Insert(2), R
 
 // (two and three fully symbolic operations were tried as well: no answer within 30 minutes)
 // capacity 1: window 1, main 1
-policy_h!(c16_t_policy_cap1_empty_2ops, 1, [], 2);
 policy_h!(c16_t_policy_cap1_full_1op, 1, [Insert(0), Insert(1)], 1);
 policy_h!(c16_t_policy_cap1_full_pinned_1op, 1, [Insert(0), Insert(1), Pin(1), Pin(0)], 1);
 policy_h!(c16_t_policy_cap1_pinned_region_1op, 1, [Insert(0), Insert(1), Pin(1), Insert(2)], 1);
